@@ -125,16 +125,34 @@ def run_case(ctx, mr, case):
                 ctx.diff('oracle', 'cia-content-open', dict(case, content=i), 'a view', pyenv.errname(ex), f'opening content {i} raised')
                 continue
             handles[i] = (f, data)
-        for i in order:
+        # ... and the archive's other sections (their views share the same file), one operation at a time, round and round: what a
+        # view returns does not depend on what was read through another one in between
+        for sec, name in want.items():
+            reg = r.sections.get(sec)
+            if reg is not None:
+                handles[name] = (r.open_raw_section(sec), cia[cinfo['offsets'][name]:cinfo['offsets'][name] + cinfo['sizes'][name]])
+        running = []
+        for i in list(order) + [n_ for n_ in handles if not isinstance(n_, int)]:
             if i not in handles:
                 continue
             f, data = handles[i]
 
             def fail(sig, what, expected, observed, i=i):
-                ctx.diff('oracle', f'cia-content:{sig}', dict(case, content=i), str(expected)[:100], str(observed)[:100], f'CIA content {i}: {what}')
+                ctx.diff('oracle', f'cia-content:{sig}', dict(case, content=i), str(expected)[:100], str(observed)[:100], f'CIA content / section {i}: {what}')
             c = fc.Contract(f, data, fail, writable=False)
-            c.run(fc.gen_ops(rng, len(data), 4, writable=False, whences=(0, 0, 1, 2)))
+            c.flags()
+            ops = fc.gen_ops(rng, len(data), 4, writable=False, whences=(0, 0, 1, 2))
+            # consecutive reads without a seek in between (the other views are used meanwhile)
+            ops += [['s', rng.randrange(len(data) + 1), 0], ['r', rng.choice([1, 16, 33])], ['r', rng.choice([1, 16, 33])], ['r', 7]]
+            running.append([c, ops])
             ctx.stat('content_views')
+        while running:
+            k = rng.randrange(len(running))
+            c, ops = running[k]
+            c.step(ops.pop(0))
+            if not ops:
+                c.run([])          # the read-back sweep
+                running.pop(k)
         # nested readers: each content's own files, whatever was opened before or after
         if load:
             if sorted(r.contents) != sorted(present):
